@@ -716,10 +716,16 @@ func runFile(run *hx.Run, jc *jcase, next func(st *genState) *jop) {
 						viol("file:wrong-password-accepted:import", "import succeeded without the stored password", "done", "rejected")
 					}
 					if op.Kind == "import" && !op.BlobValid {
-						viol("file:import-accepted-malformed", "a malformed key file was imported", "done", "rejected")
+						if strings.HasPrefix(op.Tag, "mac-") {
+							viol("file:tampered-mac-accepted:xor-cancelling", "a key file with a tampered MAC ("+op.Tag+") was accepted", "done", "invalid password")
+						} else {
+							viol("file:import-accepted-malformed", "a malformed key file was imported", "done", "rejected")
+						}
 					}
 					// "exporting then importing reproduces the key": from now on this is the key of the slot
 					ref[slot] = refEntry{key: newKey, pw: pw}
+				} else if okPw && strings.HasPrefix(op.Tag, "mac-") && out.kind != "invalid" {
+					viol("file:tampered-mac-not-invalid", "tampered MAC ("+op.Tag+"): outcome "+out.kind+" instead of ErrInvalidPassword", out.kind, "invalid")
 				} else if wantOK {
 					viol("file:export-import-rejected", "import of a well-formed key file with the stored password failed: "+out.kind, out.kind, "done")
 				}
@@ -1047,6 +1053,7 @@ func corpus(r *hx.Rand) []jcase {
 			{Kind: "import", Name: hs(strings.Repeat("y", 237)), Pw: hs("p"), Blob: hx.Hex(goodP), BlobValid: true, BlobPw: hs("p"), BlobKey: hx.Hex(key), Tag: "ok-n2"},
 			{Kind: "key", Name: hs(strings.Repeat("y", 236)), Pw: hs("p")}, {Kind: "key", Name: hs(strings.Repeat("y", 237)), Pw: hs("p")}}},
 		boundaryCase(r),
+		tamperCase(r),
 		{Store: "mem", Ops: []jop{{Kind: "key", Name: hs("n"), Pw: hs("")}, {Kind: "key", Name: hs("n"), Pw: hs("\x00")},
 			{Kind: "key", Name: hs("n"), Pw: hs("")}, {Kind: "export", Name: hs("n"), Pw: hs("")}, {Kind: "import", Name: hs("n"), Pw: hs("")},
 			{Kind: "exists", Name: hs("n")}, {Kind: "exists", Name: hs("N")}}},
@@ -1177,6 +1184,104 @@ func concPws(i int) []string {
 	return pws
 }
 
+// tamperMAC: deterministic tamper classes of the stored MAC whose byte differences cancel
+// under XOR (C36-3: a comparator that accumulates differences with ^= instead of |=)
+func tamperMAC(kind string, mac []byte) []byte {
+	m := append([]byte{}, mac...)
+	var cnt int
+	var mask byte
+	switch {
+	case strings.HasPrefix(kind, "mac-xor"):
+		fmt.Sscanf(kind, "mac-xor%02x-n%d", &mask, &cnt)
+		step := 32 / cnt
+		for i := 0; i < cnt; i++ {
+			m[(i*step+i%2*3)%32] ^= mask // spread positions (distinct: step >= 8 or all bytes)
+		}
+		if cnt == 32 {
+			m = append([]byte{}, mac...)
+			for i := range m {
+				m[i] ^= mask
+			}
+		}
+	case kind == "mac-swap":
+		for j := 1; j < 32; j++ {
+			if m[0] != m[j] {
+				m[0], m[j] = m[j], m[0]
+				break
+			}
+		}
+	case kind == "mac-reversed":
+		for i, j := 0, 31; i < j; i, j = i+1, j-1 {
+			m[i], m[j] = m[j], m[i]
+		}
+	}
+	return m
+}
+
+var tamperKinds = []string{"mac-xor01-n2", "mac-xor01-n4", "mac-xor01-n32", "mac-xor80-n2", "mac-xor80-n4", "mac-xor80-n32",
+	"mac-xorff-n2", "mac-xorff-n4", "mac-xorff-n32", "mac-swap", "mac-reversed"}
+
+// every tamper class goes through ImportKey with the right password, for a Keccak-MAC'd and a
+// SHA3-MAC'd key file; each must be refused as invalid and the stored key must stay
+func tamperCase(r *hx.Rand) jcase {
+	key := bytes.Repeat([]byte{0x22}, 32)
+	jc := jcase{Store: "file", Ops: []jop{{Kind: "key", Name: hs("t"), Pw: hs("pw")}}}
+	for i, kind := range tamperKinds {
+		kind := kind
+		blob := craft(r, key, []byte("pw"), craftOpt{sha3mac: i%2 == 1, mutate: func(k *v3) {
+			k.Crypto.MAC = hex.EncodeToString(tamperMAC(kind, unhex(k.Crypto.MAC)))
+		}})
+		jc.Ops = append(jc.Ops, jop{Kind: "import", Name: hs("t"), Pw: hs("pw"), Blob: hx.Hex(blob), BlobPw: hs("pw"), BlobKey: hx.Hex(key), Tag: kind})
+	}
+	jc.Ops = append(jc.Ops, jop{Kind: "key", Name: hs("t"), Pw: hs("pw")})
+	return jc
+}
+
+// wrongPasswordSweep: a key file with the lightest scrypt parameters the loader accepts (one
+// attempt ~ tens of microseconds) is placed in a fresh keystore directory, then n distinct
+// wrong passwords are tried through Service.Key. None may yield a key. The passwords are
+// short printable strings without NUL, so the known HMAC-equivalent class cannot occur.
+func wrongPasswordSweep(run *hx.Run, r *hx.Rand, n int) {
+	sandbox, err := os.MkdirTemp(os.Getenv("VERIF_WORKDIR"), "kss")
+	if err != nil {
+		panic(err)
+	}
+	defer os.RemoveAll(sandbox)
+	key := r.Bytes(32)
+	key[0] &= 0x7f
+	const right = "sweep-right-password"
+	if err := os.WriteFile(filepath.Join(sandbox, "light.key"), craft(r, key, []byte(right), craftOpt{n: 2, r: 1, p: 1, dkl: 32}), 0o600); err != nil {
+		panic(err)
+	}
+	svc := file.New(sandbox)
+	jc := jcase{Store: "file-sweep"}
+	if k, created, err := svc.Key("light", right); err != nil || created || !bytes.Equal(crypto.EncodeSecp256k1PrivateKey(k), key) {
+		run.Violate(hx.Violation{Sig: "file:light-kdf-key-file-not-read", Detail: fmt.Sprintf("a V3 key file with scrypt n=2,r=1,p=1 and the right password: err=%v created=%v", err, created), Case: jc})
+		return
+	}
+	salt := r.U64()
+	accepted := 0
+	for i := 0; i < n; i++ {
+		wrong := fmt.Sprintf("w%x-%d", salt, i)
+		run.OracleChecked(1)
+		k, _, err := svc.Key("light", wrong)
+		if err == nil {
+			accepted++
+			if accepted <= 3 {
+				run.Violate(hx.Violation{Sig: "file:wrong-password-accepted:sweep",
+					Detail: fmt.Sprintf("attempt %d: password %q opened a key stored under %q (same key: %v)", i, wrong, right, bytes.Equal(crypto.EncodeSecp256k1PrivateKey(k), key)),
+					Case: jc, Impl: "key", Want: "invalid password"})
+			}
+		} else if !errors.Is(err, keystore.ErrInvalidPassword) {
+			run.Violate(hx.Violation{Sig: "file:wrong-password-not-invalid:sweep", Detail: fmt.Sprintf("attempt %d: %v", i, err), Case: jc})
+			return
+		}
+	}
+	run.HistN("file.sweep.wrong-passwords", n)
+	run.HistN("file.sweep.accepted", accepted)
+	run.AddCase("", jc, fmt.Sprintf("sweep|%d", n), true)
+}
+
 func runConcurrent(run *hx.Run) {
 	toOutcome := func(k interface{ Key(string, string) (*ecdsa.PrivateKey, bool, error) }) func(string, string) outcome {
 		return func(name, pw string) (out outcome) {
@@ -1227,7 +1332,9 @@ func main() {
 		if err := run.ReadReplay(&jc); err != nil {
 			panic(err)
 		}
-		if strings.HasSuffix(jc.Store, "-conc") {
+		if jc.Store == "file-sweep" {
+			wrongPasswordSweep(run, r.Fork(77), run.N(3000, 30000))
+		} else if strings.HasSuffix(jc.Store, "-conc") {
 			runConcurrent(run)
 		} else if jc.Store == "mem" {
 			runMem(run, &jc, r, 0)
@@ -1270,6 +1377,7 @@ func main() {
 		runMem(run, &jc, r.Fork(uint64(1000+h)), 5+r.Intn(25))
 	}
 	runConcurrent(run)
+	wrongPasswordSweep(run, r.Fork(77), run.N(3000, 30000))
 	run.SetExtra("scrypt_calls_by_harness", scryptCalls)
 	run.Finish()
 }
